@@ -853,11 +853,14 @@ class LTE:
         * :math:`\Delta T` is the relative change in temperature.
         """
         start_temperature = self.T
-        self.T = start_temperature * (1 - rel_delta_T)
-        enthalpy_low = self.calculate_enthalpy()
-        self.T = start_temperature * (1 + rel_delta_T)
-        enthalpy_high = self.calculate_enthalpy()
-        self.T = start_temperature
+        try:
+            self.T = start_temperature * (1 - rel_delta_T)
+            enthalpy_low = self.calculate_enthalpy()
+            self.T = start_temperature * (1 + rel_delta_T)
+            enthalpy_high = self.calculate_enthalpy()
+        finally:
+            # Restore the temperature even if a perturbed evaluation raises.
+            self.T = start_temperature
         return (enthalpy_high - enthalpy_low) / (2 * rel_delta_T * self.T)
 
     def calculate_viscosity(self) -> float:
